@@ -27,7 +27,7 @@ let total cfg = if cfg = "16" then pow2 16 else pow2 32
 let ps_ty = TStruct [TInt IInt; TInt ILong; TInt IChar; TInt ILLong; TPtr]
 let ptee_of_string = function
   | "char" -> TInt IChar | "short" -> TInt IShort | "int" -> TInt IInt | "long" -> TInt ILong
-  | "ulong" -> TInt IULong | "llong" -> TInt ILLong | "ullong" -> TInt IULLong | "double" -> TDouble | "float" -> TFloat
+  | "ulong" -> TInt IULong | "llong" | "cllong" -> TInt ILLong | "clong" -> TInt ILong | "ullong" -> TInt IULLong | "double" -> TDouble | "float" -> TFloat
   | "ptr" -> TPtr | "arr4" -> TArr (z_of_int 4, TInt IInt) | "larr3" -> TArr (z_of_int 3, TInt ILong)
   | "llarr3" -> TArr (z_of_int 3, TInt ILLong) | "ullarr2x2" -> TArr (z_of_int 2, TArr (z_of_int 2, TInt IULLong)) | "sarr5" -> TArr (z_of_int 5, TInt IShort)
   | "ps" -> ps_ty | s -> failwith ("bad pointee " ^ s)
